@@ -37,6 +37,18 @@ impl MergeFunction for Concat {
     }
 }
 
+/// Returns one of its inputs (Cow::Borrowed when the input is borrowed): the merger must copy it
+/// before it advances the cursors the value is borrowed from.
+#[derive(Clone, Copy)]
+struct KeepFirst;
+
+impl MergeFunction for KeepFirst {
+    type Error = String;
+    fn merge<'a>(&self, _key: &[u8], values: &[Cow<'a, [u8]>]) -> Result<Cow<'a, [u8]>, String> {
+        Ok(values[0].clone())
+    }
+}
+
 fn filled(len: usize, tag: u8) -> Vec<u8> {
     let mut v = vec![tag; len];
     if len > 0 {
@@ -270,6 +282,37 @@ fn run_read(s: &str) -> Result<(), String> {
                 return Err("prefix FFFF found something".into());
             }
         }
+        "mergefirst" => {
+            // keep-first merge function, keys held by one, two or three sources, sources that end
+            // at different keys (a value returned by next() must survive the advance of its source)
+            let mut model: BTreeMap<Vec<u8>, Vec<u8>> = BTreeMap::new();
+            let mut files = Vec::new();
+            for src in 0..3usize {
+                let es: Vec<Entry> = entries
+                    .iter()
+                    .enumerate()
+                    .filter(|(i, _)| (i >> src) & 1 == 1 || (src == 0 && *i == 0))
+                    .map(|(_, x)| (x.0.clone(), filled(num(s, "vlen", 1) + 2 * src, src as u8 * 40 + 7)))
+                    .collect();
+                for (k, v) in &es {
+                    model.entry(k.clone()).or_insert_with(|| v.clone());
+                }
+                files.push(write_file(s, &es)?);
+            }
+            let mut mb = Merger::builder(KeepFirst);
+            for f in &files {
+                mb.push(Reader::new(Cursor::new(f.as_slice())).map_err(e)?.into_cursor().map_err(e)?);
+            }
+            let mut it = mb.build().into_stream_merger_iter().map_err(e)?;
+            let mut got = Vec::new();
+            while let Some((k, v)) = it.next().map_err(|e| e.to_string())? {
+                got.push((k.to_vec(), v.to_vec()));
+            }
+            let want: Vec<Entry> = model.into_iter().collect();
+            if got != want {
+                return Err("keep-first merge differs".into());
+            }
+        }
         "merge" => {
             // three sources with overlapping keys
             let mut model: BTreeMap<Vec<u8>, Vec<u8>> = BTreeMap::new();
@@ -370,7 +413,7 @@ fn scenario_list(thorough: bool) -> Vec<String> {
     let codecs: &[usize] = if thorough { &[0, 5, 1] } else { &[0, 5] };
     for &c in codecs {
         for l in [0usize, 2] {
-            for op in ["scan", "seek", "range", "prefix", "merge"] {
+            for op in ["scan", "seek", "range", "prefix", "merge", "mergefirst"] {
                 v.push(format!("read:codec={c}:L={l}:iv=2:n=7:klen=300:vlen=1:op={op}"));
                 if thorough || c == 0 {
                     v.push(format!("read:codec={c}:L={l}:iv=1:n=4:klen=600:vlen=3:op={op}"));
